@@ -54,6 +54,13 @@ def configs(tier, seed):
     # an announcement arriving while the retry bookkeeping is still being written (slow storage)
     cfgs.append(dict(backend='dict', backoff='r10', n=1, harness_wait=True, slow_ops=['set_timestamp', 'increment_attempts'],
                      script=[E0, ['announce', 0]], d=3, dd=1, menu=MENU))
+    # ... with a bounded store pool whose slots are taken by the wait() listener and the bookkeeping itself
+    for sp in (2, 3):
+        cfgs.append(dict(backend='dict', backoff='r10', n=1, harness_wait=True, slow_ops=['set_timestamp', 'increment_attempts'], store_pool=sp,
+                         script=[E0, ['announce', 0]], d=3, dd=1, menu=MENU))
+    cfgs.append(dict(backend='redis', backoff='r10', n=1, redis_yields=['hset', 'hincrby'], store_pool=2, script=[E0], d=3, dd=1, menu=MENU))
+    # the storage announces a new message before the writer has its reply, while another enqueue() comes and goes
+    cfgs.append(dict(backend='redis', backoff='r10', n=1, redis_yields=['pipeline-reply'], script=[E0, E1], d=3, dd=1, menu=MENU))
     # pools
     cfgs.append(dict(backend='dict', backoff='r5-5', n=1, script=[E0, E1, F], relay_pool=1, d=d, dd=2, menu=MENU))
     cfgs.append(dict(backend='dict', backoff='r5-5', n=1, script=[E0, E1], store_pool=2, relay_pool=2, d=d, dd=2, menu=MENU))
